@@ -1,10 +1,58 @@
 """C09 check driver."""
 from pyvc.driver import Check
-from props import c09
+from props import c09, c09_concrete
+
+ASSUMPTIONS = [
+    "Heap model: the deque / set / list / TopologicalSorter of get_type_graph are membership arrays (order and multiplicity "
+    "abstracted; a pop returns an arbitrary member, so every work-list discipline is covered); set membership is by ==/hash of "
+    "type objects, modelled as term equality; TypeNode equality is (type, unwrapped, var) as its dataclass declares (cyclic excluded).",
+    "Termination of the work-list loop is not proved (no finite-universe variant is expressible over opaque type objects): the "
+    "twin runs every synthesised topology and pool annotation under a 5 s alarm (bounded).",
+    "graphlib.TopologicalSorter (stdlib, trusted): static_order() yields every added node exactly once, each after all of its "
+    "predecessors, and raises CycleError only if the edges contain a cycle. The proof supplies the premises: a well-founded order "
+    "certificate for every edge, the root reachable only as a source, and closure; duplicate-freeness and 'root last' then follow "
+    "from the stdlib contract and are replayed by the twin (bounded).",
+    "L1 (assumed, replayed by the twin over STDLIB_TYPES and the pool): the members of a stdlib type that is not a subscripted "
+    "generic are themselves such types and structurally smaller (only unions of plain stdlib types have members at all).",
+    "Callee contracts: inspection.unwrap(t) = base(t), idempotent (C11; proved in props/unwrap_contract.py) and None only for None; "
+    "refs.forwardref(<type>) is a ForwardRef pinned to that type (C11 obligation); inspection.isliteral / issubscriptedgeneric / "
+    "isstdlibtype / isstructuredtype are total predicates (C17); inspection.args / get_type_hints deliver the generic arguments "
+    "and the ordered field hints (external: typing).",
+    "Domain: member annotations are types, not unresolved ForwardRef objects (get_type_hints resolves them).",
+    "The relational clause (string / ForwardRef inputs: proved by the wiring obligations; NewType / value-alias / memoised inputs "
+    "give the same sequence up to the root label) is replayed by the twin on every topology (bounded), not proved: it is a "
+    "two-run property of the loop.",
+]
+
+
+def searcher(ob):
+    fails, n = c09_concrete.search("quick", 0, stop_at=1)
+    if fails:
+        return {"found": True, "kind": "c09-case", "case": fails[0], "searched": n}
+    return {"found": False, "searched": n, "note": "no synthesised topology (<= 4 classes) or pool annotation violates the statement (bounded)"}
+
+
+def replay(data):
+    case = data.get("case")
+    if not case:
+        print("replay: no concrete input recorded for", data.get("obligation"), str(data.get("solver"))[:300])
+        return 1
+    r = c09_concrete.run_recorded(case)
+    print("replay", case, "->", r)
+    return 1 if r else 0
 
 
 def main(tier, seed):
     chk = Check("C09", tier, seed)
+    chk.assumptions = list(ASSUMPTIONS)
     c09.all_obligations(chk)
-    chk.resolve_failures(None)
+    fails, n = c09_concrete.search(tier, seed, stop_at=3)
+    chk.bounded.append({"name": "bounded replay of the assumed parts: class-graph topologies (<= 4 synthesised classes; 4 class styles; 7 edge kinds; "
+                                "8 root kinds incl. NewType / text / ForwardRef roots; nested classes; shared leaves; string and value aliases) and the pool annotations",
+                        "evaluations": n, "failures": len(fails),
+                        "rule": "terminates within 5 s, no exception, duplicate-free, root last, every member preceded (plain or pinned reference), "
+                                "flag <=> ForwardRef, flagged => revisit, memoised / itertypes / NewType / reference inputs agree; L1 over STDLIB_TYPES"})
+    for i, f in enumerate(fails):
+        chk.violation(f"bounded-replay#{i}", {"found": True, "kind": "c09-case", "case": f}, True)
+    chk.resolve_failures(searcher)
     return chk.finish()
